@@ -32,6 +32,7 @@ class RegexCompiler:
         self.flags = flags
         self.bytecode: List[Tuple] = []
         self.register_count = 0
+        self.nodes_compiled = 0
         self.multiline = "m" in flags
         self.ignorecase = "i" in flags
         self.dotall = "s" in flags
@@ -49,6 +50,7 @@ class RegexCompiler:
         """
         self.bytecode = []
         self.register_count = 0
+        self.nodes_compiled = 0
 
         # Save group 0 start (full match)
         self._emit(Op.SAVE_START, 0)
@@ -64,9 +66,17 @@ class RegexCompiler:
 
         return self.bytecode
 
+    # Counted quantifiers are unrolled, so a{1000}{1000} asks for a million
+    # copies of the body: refuse programs beyond this many instructions, and
+    # patterns that take more than this many compilation steps (an unrolled
+    # body may emit nothing: (?:){99999999})
+    MAX_PROGRAM_SIZE = 100000
+
     def _emit(self, opcode: Op, *args) -> int:
         """Emit an instruction and return its index."""
         idx = len(self.bytecode)
+        if idx >= self.MAX_PROGRAM_SIZE:
+            raise RegExpError("Regular expression too large")
         self.bytecode.append((opcode, *args))
         return idx
 
@@ -80,6 +90,9 @@ class RegexCompiler:
 
     def _compile_node(self, node: Node):
         """Compile a single AST node."""
+        self.nodes_compiled += 1
+        if self.nodes_compiled > self.MAX_PROGRAM_SIZE:
+            raise RegExpError("Regular expression too large")
         if isinstance(node, Char):
             self._compile_char(node)
         elif isinstance(node, Dot):
